@@ -366,7 +366,10 @@ fn gen_program_impl(rng: &mut Rng, cfg: &GenCfg, single: bool) -> Prog {
                 let c: Vec<&Node> = pool.iter().filter(|n| !n.get_operation().is_input()).collect();
                 if c.is_empty() { continue; }
                 let a = (*rng.pick(&c)).clone();
-                (a.get_node_dependencies(), a.get_operation())
+                // sometimes with the operands in the opposite order (only equal for symmetric operations)
+                let mut deps = a.get_node_dependencies();
+                if deps.len() == 2 && rng.chance(1, 3) { deps.reverse(); }
+                (deps, a.get_operation())
             }
             "annot" => {
                 let a = rng.pick(&pool).clone();
